@@ -322,9 +322,30 @@ def load_known(prop):
     return json.load(open(p)).get("findings", [])
 
 
+def coqchk_stage(ctx):
+    """Thorough tier: re-check the compiled property file and everything it depends on with the
+    independent checker coqchk, and record the axioms it reports."""
+    prop = ctx.prop
+    with locked("coq"):
+        rc, out = sh(["coqchk", "-o", "-silent", "-Q", ".", "DuneV", "DuneV.Properties_%s" % prop], cwd=COQ, timeout=3000)
+    info = {"rc": rc, "cmd": "coqchk -o -silent -Q . DuneV DuneV.Properties_%s" % prop}
+    m = re.search(r"CONTEXT SUMMARY(.*)", out, re.S)
+    info["summary"] = (m.group(1) if m else out)[-3000:].strip().split("\n")
+    ctx.coverage["coqchk"] = info
+    if rc != 0:
+        ctx.violation("coq:coqchk", {"broken": "coqchk rejects Properties_%s.vo" % prop, "log": out[-3000:]}, found_input=False)
+    return rc == 0
+
+
 def finish(ctx, level="proof"):
     """Known-findings filter, replay files, evidence, exit status."""
     prop = ctx.prop
+    if ctx.tier == "thorough" and ctx.coq and ctx.coq.get("ok") and os.path.exists(os.path.join(COQ, "Properties_%s.vo" % prop)) \
+            and not os.environ.get("VERIF_NO_COQCHK"):
+        try:
+            coqchk_stage(ctx)
+        except Exception as e:           # never let the re-checker's absence hide the real result
+            ctx.notes.append("coqchk stage failed to run: %r" % (e,))
     known = [k for k in load_known(prop) if k.get("status") == "known"]
     hits, fresh = {}, []
     for sig, rep, found in ctx.viol:
